@@ -153,18 +153,28 @@ func runCheck(prop, tier, root string, seed int) int {
 		}
 	}
 	engineErr := 0
-	for _, e := range prog.specErrors {
-		fmt.Printf("SPEC-ERROR property=%s %s\n", prop, e)
-		engineErr++
+	specViol := 0
+	os.RemoveAll(filepath.Join(verifRoot, "work", "replay", prop))
+	os.MkdirAll(filepath.Join(verifRoot, "work", "replay", prop), 0o755)
+	for i, e := range dedup(prog.specErrors) {
+		// on the unchanged tree every contract clause evaluates; a clause that no longer does (a loop, field or
+		// parameter it mentions is gone) cannot be established any more
+		name := fmt.Sprintf("contract-clause-not-applicable#%d", i+1)
+		rpath := filepath.Join(verifRoot, "work", "replay", prop, name+".json")
+		rb, _ := json.MarshalIndent(map[string]interface{}{"property": prop, "obligation": name, "note": "a contract clause that is checked on the unchanged tree cannot be evaluated against this tree: " + e, "confirmed_on_real_code": false}, "", " ")
+		os.WriteFile(rpath, rb, 0o644)
+		fmt.Printf("VIOLATION property=%s replay=%s obligation=%s (%s) no-failing-input-found\n", prop, rpath, name, e)
+		specViol++
 	}
 	nObl, nOK, nKnown, nViol := 0, 0, 0, 0
+	nViol += specViol
+	nObl += specViol
 	byBackend := map[string]int{}
 	solverS := 0.0
 	var fns, inlined, unsup, samples, violNames []string
 	assum := map[string]bool{}
 	knownSeen := map[string]bool{}
 	var replayDir = filepath.Join(verifRoot, "work", "replay", prop)
-	os.RemoveAll(replayDir)
 	os.MkdirAll(replayDir, 0o755)
 	vacuous := 0
 	loops := 0
